@@ -33,6 +33,7 @@ import (
 	eth2p0 "github.com/attestantio/go-eth2-client/spec/phase0"
 
 	"github.com/obolnetwork/charon/app/eth2wrap"
+	"github.com/obolnetwork/charon/app/sse"
 	"github.com/obolnetwork/charon/app/log"
 
 	"verifharness/hx"
@@ -348,6 +349,8 @@ type episode struct {
 	handed    map[unsafe.Pointer]string // every object ever returned to a caller -> who/what
 	keepAlive []any
 	mustReorg map[key]bool            // invalidated by a reorg, not yet fetched afresh
+	sse       map[uint64]sse.Listener // real SSE listeners (per slots-per-epoch) feeding InvalidateCache
+	sseGot    []uint64                // epochs the listener notified during the current op
 	mustTrim  map[key]bool            // trimmed, not yet fetched afresh
 	straddle  map[key]bool            // a call in flight across an invalidation of this key has stored since
 	repeated  map[key]map[uint64]bool // validators that some request for the key repeated
@@ -873,6 +876,43 @@ func (ep *episode) doReorg(run *hx.Run, r uint64) string {
 	return ep.snapshot()
 }
 
+// doSse feeds a chain_reorg event (head slot, depth) to the real SSE listener's handler; its
+// subscriber is what app.go wires: the node's answers change for the epochs after the notified one
+// and DutiesCache.InvalidateCache is called with that epoch.
+func (ep *episode) doSse(run *hx.Run, slot, depth, spe uint64) string {
+	if ep.sse == nil {
+		ep.sse = map[uint64]sse.Listener{}
+	}
+	l, ok := ep.sse[spe]
+	if !ok {
+		l = sse.NewListenerVerif(spe)
+		l.SubscribeChainReorgEvent(func(_ context.Context, e eth2p0.Epoch) { ep.sseGot = append(ep.sseGot, uint64(e)) })
+		ep.sse[spe] = l
+	}
+	ep.sseGot = nil
+	data := fmt.Sprintf(`{"slot":"%d","depth":"%d","old_head_block":"0x00","new_head_block":"0x01","old_head_state":"0x00","new_head_state":"0x01","epoch":"%d","execution_optimistic":false}`, slot, depth, slot/spe)
+	err := sse.HandleChainReorgEventVerif(context.Background(), l, []byte(data))
+	run.Count("sse")
+	switch {
+	case err != nil:
+		if len(ep.sseGot) > 0 {
+			run.Violate("dutiescache:sse_refused_event_notified", fmt.Sprintf("chain_reorg slot %d depth %d refused (%v) but subscribers were called with %v", slot, depth, err, ep.sseGot))
+		}
+		return "sse err"
+	case len(ep.sseGot) == 0:
+		return "sse dup"
+	}
+	if len(ep.sseGot) > 1 {
+		run.Violate("dutiescache:sse_notified_twice", fmt.Sprintf("chain_reorg slot %d depth %d: subscriber called %d times", slot, depth, len(ep.sseGot)))
+	}
+	e := ep.sseGot[0]
+	// the common ancestor is slot-depth: every epoch after the one that holds it is affected, none before
+	if slot >= depth && (e*spe > slot-depth || (e+1)*spe <= slot-depth) {
+		run.Violate("dutiescache:sse_reorg_epoch_wrong", fmt.Sprintf("chain_reorg slot %d depth %d (%d slots per epoch): subscribers notified with epoch %d, the common ancestor slot %d lies in epoch %d", slot, depth, spe, e, slot-depth, (slot-depth)/spe))
+	}
+	return fmt.Sprintf("sse %d %s", e, ep.doReorg(run, e))
+}
+
 func (ep *episode) doTrim(run *hx.Run, t uint64) string {
 	ep.cache.Trim(eth2p0.Epoch(t))
 	if t >= 3 {
@@ -936,6 +976,8 @@ func main() {
 			run.Op(op, ep.doFinish(run, int(num(1))))
 		case "reorg":
 			run.Op(op, ep.doReorg(run, num(1)))
+		case "sse":
+			run.Op(op, ep.doSse(run, num(1), num(2), num(3)))
 		case "trim":
 			run.Op(op, ep.doTrim(run, num(1)))
 		case "active":
@@ -1028,8 +1070,24 @@ func main() {
 				}
 				sort.Ints(ids)
 				exec(fmt.Sprintf("finish %d", ids[rng.Intn(len(ids))]))
-			case c < 91:
+			case c < 89:
 				exec(fmt.Sprintf("reorg %d", base+uint64(rng.Intn(5))))
+			case c < 91:
+				// the same through the SSE listener: head slot and depth, also short reorgs across an epoch
+				// boundary, depth 0, depth > slot
+				spe := []uint64{32, 32, 16, 8}[rng.Intn(4)]
+				slot := (base+uint64(rng.Intn(5)))*spe + uint64(rng.Intn(int(spe)))
+				if rng.Chance(1, 3) {
+					slot = (base + uint64(rng.Intn(5))) * spe + uint64(rng.Intn(3)) // just after a boundary
+				}
+				depth := uint64(rng.Intn(5))
+				switch rng.Intn(8) {
+				case 0:
+					depth = uint64(rng.Intn(int(3 * spe)))
+				case 1:
+					depth = slot + 1 + uint64(rng.Intn(3))
+				}
+				exec(fmt.Sprintf("sse %d %d %d", slot, depth, spe))
 			case c < 96:
 				exec(fmt.Sprintf("trim %d", base+uint64(rng.Intn(10))))
 			case c < 98:
